@@ -7,7 +7,10 @@ from hypothesis import strategies as st
 from .. import gens, model, printing, rfc
 from ..core import Prop, Violation
 
-UKEYS = [b"", b"a", b"A", b"b", b"0", b"1", b"01", b"-", b"~", b"/", b"~0", b"~1", b"a/b", b"m~n", b"10", b"2", b"~01", b"//", b"a~", b" ", b"e"]
+LONG_KEYS = [b"k" * n for n in (30, 59, 60, 61, 62, 63, 64, 65, 127, 128)] + [b"p/" + b"q" * 58, b"~" * 31]
+UKEYS = [b"", b"a", b"A", b"b", b"0", b"1", b"01", b"-", b"~", b"/", b"~0", b"~1", b"a/b", b"m~n", b"10", b"2", b"~01", b"//", b"a~", b" ", b"e",
+         b"\xc3\xa9", b"\xff", b"\x80a", b"z\xc3\xa9", b"\x7f"]
+HUGE = [2 ** 31, 2 ** 31 + 1, 2 ** 32, 2 ** 32 + 1, 2 ** 32 + 2, 2 ** 63, 2 ** 63 + 1, 2 ** 64 - 1, 2 ** 64, 2 ** 64 + 1, 2 ** 64 + 2, 10 ** 19, 10 ** 20 + 1]
 EDIT_CHARS = b"/~0123456789:Aa-+ ~1~0e."
 
 
@@ -16,7 +19,8 @@ def utils_documents(max_leaves=12, min_leaves=1, wide=True):
                        st.integers(-20, 20).map(lambda i: ["N", float(i)]),
                        st.integers(-40, 40).map(lambda i: ["N", i / 8.0]),
                        st.sampled_from([b"", b"x", b"str", b"a/b", b"~"]).map(lambda s: ["S", s]))
-    keys = st.one_of(st.sampled_from(UKEYS), st.lists(st.sampled_from(list(b"aA01/~-b")), max_size=3).map(bytes))
+    keys = st.one_of(st.sampled_from(UKEYS), st.sampled_from(UKEYS), st.lists(st.sampled_from(list(b"aA01/~-b")), max_size=3).map(bytes),
+                     st.sampled_from(LONG_KEYS))
     docs = [gens.shaped_documents(leaves, keys, max_leaves=max_leaves, min_leaves=min_leaves, unique_keys=True),
             gens.shaped_documents(leaves, keys, max_leaves=5, unique_keys=True)]
     if wide:
@@ -53,7 +57,7 @@ class C15(Prop):
             "cJSON_free. non-trivial = (doc, pointer) with >= 2 tokens, an escape, or an array index >= 10; distinct by hash")
     ASSUMPTIONS = ["keys are distinct per object (first-match semantics under duplicates is not part of the statement)"]
     REQUIRED_CLASSES = ["valid", "invalid_index", "invalid_escape", "no_leading_slash", "empty_token_on_array", "index>=10", "huge_index",
-                        "construction_pairs", "missing_member", "dash", "case_flip"]
+                        "construction_pairs", "missing_member", "dash", "case_flip", "ownership_flags_variant"]
 
     def budget(self, tier):
         return {"workers": 12, "examples": 1200 if tier == "quick" else 30000}
@@ -95,8 +99,9 @@ class C15(Prop):
             i = p.rfind(b"/")
             tok = p[i + 1:]
             if tok.isdigit():
-                return p[:i + 1] + str(int(tok) + 2 ** 64).encode()
-            return p + b"/18446744073709551617"
+                # an index that only aliases an existing element after truncation to 32/64 bits
+                return p[:i + 1] + str(int(tok) + rnd.choice([2 ** 64, 2 ** 32, 2 ** 31, 2 ** 63, 2 * 2 ** 32])).encode()
+            return p + b"/%d" % rnd.choice(HUGE)
         if k == 10:
             return p.swapcase()
         if k == 11:
@@ -108,7 +113,11 @@ class C15(Prop):
     def run_case(self, lib, case, stats):
         jv = case["jv"]
         rnd = random.Random(case["rseed"])
-        root = printing.build_tree(lib, jv)
+        arena = printing.Arena(lib)
+        flagged = case["rseed"] % 3 == 0
+        root = printing.build_flagged(lib, jv, arena, rnd) if flagged else printing.build_tree(lib, jv)
+        if flagged:
+            stats.cls("ownership_flags_variant")
         try:
             ptrmap = map_ptrs(lib, root, jv)
             paths = list(rfc.all_paths(jv))
@@ -130,6 +139,8 @@ class C15(Prop):
                     cands += [base + b"/", base + b"/-", base + b"/%d" % n, base + b"/%d" % (n - 1) if n else base + b"/0", base + b"/1A", base + b"/01",
                               base + b"/0x1", base + b"/ 1", base + b"/1 ", base + b"/+1", base + b"/1e0", base + b"/18446744073709551616",
                               base + b"/18446744073709551617", base + b"/1/", base + b"/00", base + b"/-0", base + b"/2A", base + b"/1a"]
+                    cands += [base + b"/%d" % (h + k) for h in (2 ** 31, 2 ** 32, 2 ** 63, 2 ** 64) for k in (0, 1)]
+                    cands += [base + b"/%d/0" % (2 ** 32 + 1), base + b"/%d/a" % (2 ** 32)]
             for p in cands:
                 if b"\x00" in p:
                     continue
@@ -137,6 +148,7 @@ class C15(Prop):
             self.check_construction(lib, stats, root, jv, ptrmap, paths, rnd)
         finally:
             lib.cJSON_Delete(root)
+            arena.close()
         if lib.ledger_live() != 0:
             raise Violation("pointer functions left allocations behind", key="leak")
 
